@@ -258,6 +258,26 @@ def run_unit(template, tier='quick', keep=True, extra_defs=None, repo=None, buil
     res['cmds'].append(' '.join(base) + ' --property <each of the %d non-pedantic properties> --json-ui' % len(selected))
     res['solver_s'] = round(secs, 2)
     if rc == 'timeout':
+        # proving everything timed out; a violated obligation is usually found much faster than the rest is proved:
+        # look for one with --stop-on-fail before giving up (a counterexample found this way is a genuine FAILED obligation)
+        sj = os.path.join(bdir, 'stoponfail.json')
+        rc2, secs2 = run(base + sel_args + ['--stop-on-fail', '--json-ui', '--verbosity', '4'], os.path.join(bdir, 'stoponfail.log'),
+                         max(120, tmo // 2), mem, stdout_path=sj)
+        sp, _, _ = parse_cbmc_json(sj) if rc2 != 'timeout' else (None, None, None)
+        hit = [q for q in (sp or []) if q.get('status') == 'FAILURE']
+        if hit:
+            q = hit[0]
+            loc = q.get('sourceLocation') or {}
+            o = {'name': q.get('property', ''), 'description': q.get('description', ''), 'status': 'FAILURE', 'file': loc.get('file'),
+                 'line': loc.get('line'), 'function': loc.get('function'), 'inputs': trace_inputs(q.get('trace')), 'trace_file': sj}
+            if '.no-body.' not in o['name']:
+                res['status'] = 'failed'
+                res['failed'] = [o]
+                res['obligations'] = len(selected)
+                res['discharged'] = 0
+                res['reason'] = 'full run timed out after %ds; --stop-on-fail found this violated obligation' % tmo
+                res['wall_s'] = round(time.time() - t_start, 2)
+                return res
         res['reason'] = 'cbmc time-out after %ds' % tmo
         res['wall_s'] = time.time() - t_start
         return res
